@@ -48,7 +48,7 @@ Theorem C08_skipSpace_safe_partial : forall P l X,
 Proof. exact skipSpace_lines. Qed.
 Print Assumptions C08_skipSpace_safe_partial.
 
-(* ... and the scanner only calls it there: in a block that ends in CRLF CRLF (tail_inv: the remaining lines
+(* ... and the scanner only calls it there: in a block that ends in LF CR LF — what scan_init hands over on both sides (tail_inv: the remaining lines
    end with the lone CR of the final CRLF) the continuation loop stops before the last line, so every
    skipSpace call has a line in front of it; scan_next as a whole returns Ok *)
 Theorem C08_scan_next_safe_partial : forall P l rem,
@@ -57,8 +57,8 @@ Theorem C08_scan_next_safe_partial : forall P l rem,
 Proof. exact scan_next_safe. Qed.
 Print Assumptions C08_scan_next_safe_partial.
 
-Theorem C08_block_is_lines_partial : forall q, exists ls, q ++ [CR; LF; CR; LF] = join ls /\ tail_inv ls.
-Proof. exact block_lines. Qed.
+Theorem C08_block_is_lines_partial : forall q, exists ls, q ++ [LF; CR; LF] = join ls /\ tail_inv ls.
+Proof. exact block_lines_lf. Qed.
 Print Assumptions C08_block_is_lines_partial.
 
 (* the value-level helpers called from the header loop are total as well *)
